@@ -191,11 +191,13 @@ func (cp *FreeList) ToGC() (string, error) {
 		return workFilePath, nil
 	}
 
-	_, err = cp.Flush()
-	if err != nil {
-		return "", err
-	}
-
+	// Only the entries that are already in the freelist file are handed over.
+	// Those were written by a store flush after the index records that stop
+	// naming their locations. Entries still in the pool may belong to index
+	// updates that are not on disk yet; if GC marked their records deleted
+	// and the process died before the index was flushed, the index would name
+	// deleted records after a restart. They are handed over after the next
+	// store flush.
 	cp.flushLock.Lock()
 	defer cp.flushLock.Unlock()
 
